@@ -102,76 +102,112 @@ func overlayFromPatch(patchFile string) (map[string][]byte, error) {
 }
 
 func runSelftest(prop string, verbose bool) int {
-	dir := filepath.Join(verifDir(), "selftest")
-	var cases []string
-	filepath.Walk(dir, func(p string, info os.FileInfo, err error) error {
-		if err == nil && !info.IsDir() && strings.HasSuffix(p, ".diff") {
-			cases = append(cases, p)
-		}
-		return nil
-	})
-	sort.Strings(cases)
-	bad := 0
-	n := 0
-	for _, c := range cases {
-		sc, err := parseSelfCase(c)
-		if err != nil {
-			fmt.Println("SELFTEST-ERROR", err)
-			bad++
-			continue
-		}
-		if prop != "" && sc.property != prop {
-			continue
-		}
-		n++
-		ov, err := overlayFromPatch(c)
-		if err != nil {
-			fmt.Println("SELFTEST-ERROR", err)
-			bad++
-			continue
-		}
-		var buf bytes.Buffer
-		opts := &CheckOpts{ID: sc.property, Tier: "quick", Out: &buf, Overlay: ov, NoEvidence: true}
-		code := runCheckOpts(opts)
-		ok := false
-		detail := ""
-		switch sc.expect {
-		case "pass":
-			ok = code == 0
-			if !ok {
-				detail = fmt.Sprintf("expected pass, exit %d, failed: %v", code, opts.Failed)
-			}
-		case "fail":
-			if code == 1 {
-				if sc.needle == "" {
-					ok = true
-				}
-				for _, f := range opts.Failed {
-					if strings.Contains(f, sc.needle) {
-						ok = true
-					}
-				}
-				if !ok {
-					detail = fmt.Sprintf("failed obligations %v do not include %q", opts.Failed, sc.needle)
-				}
-			} else {
-				detail = fmt.Sprintf("expected VIOLATION, exit %d", code)
-			}
-		}
-		rel, _ := filepath.Rel(dir, c)
-		if ok {
-			fmt.Printf("selftest ok   %-50s %s %v\n", rel, sc.expect, opts.Failed)
-		} else {
-			bad++
-			fmt.Printf("selftest BAD  %-50s %s\n", rel, detail)
-			if verbose {
-				fmt.Println(buf.String())
-			}
-		}
+	n, bad, lines := runSelfCases(prop, verbose, 3)
+	for _, l := range lines {
+		fmt.Println(l)
 	}
 	fmt.Printf("selftest: %d cases, %d bad\n", n, bad)
 	if bad > 0 {
 		return 1
 	}
 	return 0
+}
+
+// runSelfCases runs the must-fail / must-pass corpus of one property (all when prop == "")
+// with the given number of cases in flight; returns the number of cases, the number of cases
+// that did not behave as their header says, and one report line per case.
+func runSelfCases(prop string, verbose bool, workers int) (int, int, []string) {
+	dir := filepath.Join(verifDir(), "selftest")
+	var files []string
+	filepath.Walk(dir, func(p string, info os.FileInfo, err error) error {
+		if err == nil && !info.IsDir() && strings.HasSuffix(p, ".diff") {
+			files = append(files, p)
+		}
+		return nil
+	})
+	sort.Strings(files)
+	type job struct {
+		file string
+		sc   *selfCase
+	}
+	var jobs []job
+	var lines []string
+	bad := 0
+	for _, c := range files {
+		sc, err := parseSelfCase(c)
+		if err != nil {
+			lines = append(lines, fmt.Sprint("SELFTEST-ERROR ", err))
+			bad++
+			continue
+		}
+		if prop != "" && sc.property != prop {
+			continue
+		}
+		jobs = append(jobs, job{c, sc})
+	}
+	res := make([]string, len(jobs))
+	okv := make([]bool, len(jobs))
+	sem := make(chan struct{}, workers)
+	done := make(chan int, len(jobs))
+	for k := range jobs {
+		k := k
+		go func() {
+			sem <- struct{}{}
+			defer func() { <-sem; done <- k }()
+			c, sc := jobs[k].file, jobs[k].sc
+			rel, _ := filepath.Rel(dir, c)
+			ov, err := overlayFromPatch(c)
+			if err != nil {
+				res[k] = fmt.Sprint("SELFTEST-ERROR ", err)
+				return
+			}
+			var buf bytes.Buffer
+			opts := &CheckOpts{ID: sc.property, Tier: "quick", Out: &buf, Overlay: ov, NoEvidence: true}
+			code := runCheckOpts(opts)
+			ok := false
+			detail := ""
+			switch sc.expect {
+			case "pass":
+				ok = code == 0
+				if !ok {
+					detail = fmt.Sprintf("expected pass, exit %d, failed: %v", code, opts.Failed)
+				}
+			case "fail":
+				if code == 1 {
+					if sc.needle == "" {
+						ok = true
+					}
+					for _, f := range opts.Failed {
+						if strings.Contains(f, sc.needle) {
+							ok = true
+						}
+					}
+					if !ok {
+						detail = fmt.Sprintf("failed obligations %v do not include %q", opts.Failed, sc.needle)
+					}
+				} else {
+					detail = fmt.Sprintf("expected VIOLATION, exit %d", code)
+				}
+			}
+			okv[k] = ok
+			if ok {
+				res[k] = fmt.Sprintf("selftest ok   %-50s %s %v", rel, sc.expect, opts.Failed)
+			} else {
+				res[k] = fmt.Sprintf("selftest BAD  %-50s %s", rel, detail)
+				if verbose {
+					res[k] += "\n" + buf.String()
+				}
+			}
+		}()
+	}
+	for range jobs {
+		<-done
+	}
+	for k := range jobs {
+		if !okv[k] {
+			bad++
+		}
+		lines = append(lines, res[k])
+	}
+	return len(jobs), bad, lines
 }
